@@ -402,7 +402,8 @@ Section Ser.
       assert (Ec : ((lo =? 0) && (hi + 1 =? we)) = false).
       { unfold width in Hno. rewrite Hta in Hno. destruct (N.eqb_spec lo 0); cbn [andb] in *; [|reflexivity].
         apply N.eqb_neq. apply N.eqb_neq in Hno. lia. }
-      rewrite Ec. assert (El : (hi <? lo) = false) by (apply N.ltb_ge; lia). rewrite El. reflexivity.
+      assert (El : (hi <? lo) = false) by (apply N.ltb_ge; lia).
+      destruct (lo =? 0); cbn [andb] in Ec; [rewrite Ec | rewrite El]; reflexivity.
     - (* BVNot *)
       pose proof Hwt as Hinv. apply wt_not in Hinv. destruct Hinv as (Hwa & Hta).
       pose proof (IHa Hwa Hbu Hix Hsy false) as Sa. pose proof (rt_type a false Hwa Hbu) as Ta. rewrite Hta in Ta.
@@ -538,7 +539,7 @@ Fixpoint run_state (p : list ltok) (stack : list pitem) (st : nst) (orphan : boo
 
 (** what the machine answers when the tokens end before an expression is complete:
     the [todo!] of the current code, an error in the repaired code *)
-Definition end_of_tokens : pres (eot * nst * list ltok) := match cv with Cur => PPanic | Fix => PErr end.
+Definition end_of_tokens : pres (eot * nst * list ltok) := match cv with Cur => PPanic | Fix | Fix2 => PErr end.
 
 Lemma run_app_state p q stk st o :
   run (p ++ q) stk st o =
@@ -563,7 +564,7 @@ Theorem truncated_lemma :
   forall (top : symtab) (e : expr) (mb : bool) (p q : list ltok),
     wt e = true -> built e = true -> idx32 e = true -> table_for top e ->
     toks_of_sx (ser e mb) = p ++ q -> q <> [] ->
-    parse_expr_toks top p = match cv with Cur => PPanic | Fix => PErr end.
+    parse_expr_toks top p = match cv with Cur => PPanic | Fix | Fix2 => PErr end.
 Proof.
   intros top e mb p q Hwt Hbu Hix [Hsy Hkeys] Hpq Hq.
   pose proof (sxi_ser (nst_new top) Hkeys e Hwt Hbu Hix Hsy mb) as Hs.
